@@ -50,6 +50,7 @@ ATTR_ANN = {"a": "int", "b": "str"}
 D1 = [["Desc one."]]
 D2 = [["Desc one.", "line two."]]
 D3 = [["Para one."], ["para two."]]
+D5 = [["The count (see `limit`): never negative."]]  # a description that contains "): "
 D4 = [["Desc one.", ":class:`Item` role first on the line.", "``:param x:`` quoted field syntax."]]  # continuation lines that begin with a colon
 
 
@@ -84,6 +85,11 @@ def menu():
     for kind in ("returns", "yields", "receives"):
         add(kind, "gn", items=[_item("r", "int")])
         add(kind, "gn", items=[_item("", "str", D2), _item("r", "int")])
+    for kind in ("returns", "yields", "receives"):
+        add(kind, "gn", items=[_item("r", "int", D5)])
+    add("parameters", "gns", items=[_item("x", "int", D5)])
+    add("functions", "gn", items=[_item("g", None, D5, sig="g(a: int, b=(1, 2)) -> dict[str, int]")])
+    add("classes", "gn", items=[_item("C", None, D1, sig="C(a: int = 0)")])
     add("returns", "s", items=[_item("", "int")])
     add("returns", "gn", items=[_item("r", None)])
     # un-annotated items under a parent returning a tuple: one item takes the whole annotation, several take one element each
